@@ -513,6 +513,10 @@ func TestC16(t *testing.T) {
 			}
 			c.Steps = append(c.Steps, s)
 		}
+		if c.Steps[0].Actor%2 == 1 && kvh.Pct(t, 60, "freshburst") {
+			// racing Opens on a directory that does not exist yet
+			c.Steps[0].C, c.Steps[0].Width = "burst", 3+kvh.U(t, 2, "fbwidth")
+		}
 		w, f := runC16(c)
 		if f != nil {
 			if strings.HasPrefix(f.Sig, "harness") {
